@@ -89,6 +89,7 @@ choose_alg = Spec(
     classes={'SSHConnection': CONN},
     stubs={'self.is_client': lambda cx: cx.selff('_is_client'),
            },
+    modifies=[],        # a pure choice (frame-checked here; the callee view below relies on it)
     loops={1: LoopSpec(header='for alg in client_algs',
                        invariant=lambda c: no_common_before_z(c.extra['iter'].z, c.local('server_algs'),
                                                               c.extra['i']))},
@@ -250,6 +251,7 @@ choose_alg_bytes = Spec(
     params=dict(alg_type='str', local_algs='seq[bytes]', remote_algs='seq[bytes]'),
     ensures=[('lists-non-empty', lambda c: z3.And(z3.Length(c.arg('local_algs')) > 0,
                                                   z3.Length(c.arg('remote_algs')) > 0))],
+    modifies=[],        # proved on the real function by the `choose_alg` Spec above (#frame obligations)
     raises={'KeyExchangeFailed': True, 'UnicodeDecodeError': True}, returns='bytes')
 Spec.registry.remove(choose_alg_bytes)
 
